@@ -500,7 +500,7 @@ def run(F, rep):
 
     # ------------------------------------------------------------------ H, N (clauses shared with C12 / C16)
     import c12
-    c12.rule_h1(F, rep, 'C02.H1', [s for s in c12.STATE if s[0] == 'Parser::ParserImpl'])
+    c12.rule_h1(F, rep, 'C02.H1', [s for s in c12.STATE if s[0] in ('Parser::ParserImpl', 'Printer::PrinterImpl')])
     import c16
     if not getattr(rep, 'nested', False):
         c16.run(F, core.Borrowed(rep, only={'C16.P1'}))
@@ -538,5 +538,9 @@ def run(F, rep):
     # ------------------------------------------------------------------ sibling cursors
     from engines import rule_cursor_loops
     rule_cursor_loops(F, rep, 'C02.K1', lambda g: g.file.endswith(('/parser.cpp', '/xmlutils.cpp', '/xmlnode.cpp')), 25, 'the parser and its XML helpers')
+
+    # ------------------------------------------------------------------ duplicates
+    from engines import rule_unique_sorted
+    rule_unique_sorted(F, rep, 'C02.U1', lambda g: '/src/' in g.file, 'the library')
 
 
